@@ -79,48 +79,68 @@ structure GeoReport where
   longCopper : List Nat := []
   deriving Repr, Inhabited
 
-def geoCheck (bp : Blueprint) (protos : Array Proto) (checkPower : Bool)
-    (grid : List (Int × Int) := []) (gridSupply : Int := 0) : GeoReport :=
-  let n := bp.ents.size
-  let pr (i : Nat) : Proto := protos.getD i default
-  let boxes := (Array.range n).map (fun i => absBox (bp.ents.getD i default) (pr i))
-  let overlaps := (List.range n).flatMap (fun i =>
+/-- pairs `i < j` of entity indices whose collision boxes intersect -/
+def overlapsOf (n : Nat) (boxes : Array (Int × Int × Int × Int)) : List (Nat × Nat) :=
+  (List.range n).flatMap (fun i =>
     ((List.range n).filter (fun j => i < j && boxesOverlap (boxes.getD i default) (boxes.getD j default))).map (fun j => (i, j)))
-  let badWires := (List.range bp.wires.size).filterMap (fun k =>
-    let w := bp.wires.getD k default
+
+/-- what is wrong with one wire, if anything -/
+def wireFault (bp : Blueprint) (pr : Nat → Proto) (w : BpWire) : Option String :=
     match bp.indexOf w.e1, bp.indexOf w.e2 with
     | some i, some j =>
       let a := bp.ents.getD i default
       let b := bp.ents.getD j default
       let copper1 := w.c1 ≥ 5
       let copper2 := w.c2 ≥ 5
-      if copper1 != copper2 then some (k, "circuit connector wired to a copper connector")
+      if copper1 != copper2 then some "circuit connector wired to a copper connector"
       else if copper1 then
         let r := min (pr i).copperReach (pr j).copperReach
-        if !((pr i).isPole || a.name == "power-switch") || !((pr j).isPole || b.name == "power-switch") then some (k, "copper wire on an entity without a copper connector")
-        else if dist2 a b > r * r then some (k, "copper wire longer than the poles' reach")
+        if !((pr i).isPole || a.name == "power-switch") || !((pr j).isPole || b.name == "power-switch") then some "copper wire on an entity without a copper connector"
+        else if dist2 a b > r * r then some "copper wire longer than the poles' reach"
         else none
-      else if w.c1 == 0 || w.c2 == 0 || w.c1 > maxConn a || w.c2 > maxConn b then some (k, "connector the entity does not have")
-      else if w.c1 % 2 != w.c2 % 2 then some (k, "wire joins a red and a green connector")
+      else if w.c1 == 0 || w.c2 == 0 || w.c1 > maxConn a || w.c2 > maxConn b then some "connector the entity does not have"
+      else if w.c1 % 2 != w.c2 % 2 then some "wire joins a red and a green connector"
       else
         let r := min (pr i).circuitReach (pr j).circuitReach
-        if dist2 a b > r * r then some (k, s!"circuit wire longer than the reach of its endpoints ({dist2 a b} > {r * r})") else none
-    | _, _ => some (k, "wire endpoint is not an entity of the blueprint"))
-  let poles := (List.range n).filter (fun i => (pr i).isPole)
-  let unpowered := if !checkPower then [] else (List.range n).filter (fun i =>
-    (pr i).electric && !(poles.any (fun p =>
-      let e := bp.ents.getD p default
-      let s := (pr p).supply
-      let area : Int × Int × Int × Int := (e.x2 * 500 - s, e.y2 * 500 - s, e.x2 * 500 + s, e.y2 * 500 + s)
-      boxesTouch (boxes.getD i default) area)))
-  -- electric network: poles joined by copper wires
-  let par0 : Array Nat := Array.range n
-  let par := bp.wires.toList.foldl (fun p w =>
+        if dist2 a b > r * r then some s!"circuit wire longer than the reach of its endpoints ({dist2 a b} > {r * r})" else none
+    | _, _ => some "wire endpoint is not an entity of the blueprint"
+
+def badWiresOf (bp : Blueprint) (pr : Nat → Proto) : List (Nat × String) :=
+  (List.range bp.wires.size).filterMap (fun k => (wireFault bp pr (bp.wires.getD k default)).map (fun r => (k, r)))
+
+/-- supply area of pole `p` (1/1000 tile) -/
+def supplyArea (bp : Blueprint) (pr : Nat → Proto) (p : Nat) : Int × Int × Int × Int :=
+  let e := bp.ents.getD p default
+  let s := (pr p).supply
+  (e.x2 * 500 - s, e.y2 * 500 - s, e.x2 * 500 + s, e.y2 * 500 + s)
+
+/-- electric entities whose collision box touches no pole's supply area -/
+def unpoweredOf (n : Nat) (bp : Blueprint) (pr : Nat → Proto) (boxes : Array (Int × Int × Int × Int)) (poles : List Nat) : List Nat :=
+  (List.range n).filter (fun i =>
+    (pr i).electric && !(poles.any (fun p => boxesTouch (boxes.getD i default) (supplyArea bp pr p))))
+
+/-- copper-wire edges between entity indices -/
+def copperEdges (bp : Blueprint) : List (Nat × Nat) :=
+  bp.wires.toList.filterMap (fun w =>
     if w.c1 ≥ 5 && w.c2 ≥ 5 then
       match bp.indexOf w.e1, bp.indexOf w.e2 with
-      | some i, some j => ufUnion p i j
-      | _, _ => p
-    else p) par0
+      | some i, some j => some (i, j)
+      | _, _ => none
+    else none)
+
+def copperPar (bp : Blueprint) : Array Nat :=
+  (copperEdges bp).foldl (fun p (a, b) => ufUnion p a b) (Array.range bp.ents.size)
+
+def geoCheck (bp : Blueprint) (protos : Array Proto) (checkPower : Bool)
+    (grid : List (Int × Int) := []) (gridSupply : Int := 0) : GeoReport :=
+  let n := bp.ents.size
+  let pr (i : Nat) : Proto := protos.getD i default
+  let boxes := (Array.range n).map (fun i => absBox (bp.ents.getD i default) (pr i))
+  let overlaps := overlapsOf n boxes
+  let badWires := badWiresOf bp pr
+  let poles := (List.range n).filter (fun i => (pr i).isPole)
+  let unpowered := if !checkPower then [] else unpoweredOf n bp pr boxes poles
+  let par := copperPar bp
   let roots := (poles.map (ufFind par)).eraseDups
   let connectable := poles.flatMap (fun p => (poles.filter (fun q => p < q && ufFind par p != ufFind par q &&
       (let r := min (pr p).copperReach (pr q).copperReach
